@@ -7,6 +7,7 @@ import (
 	"encoding/json"
 	"errors"
 	"fmt"
+	"io"
 	standardaccountmanager "github.com/attestantio/dirk/services/accountmanager/standard"
 	standardwalletmanager "github.com/attestantio/dirk/services/walletmanager/standard"
 	"github.com/google/uuid"
@@ -40,6 +41,7 @@ import (
 	"github.com/attestantio/dirk/util/verifhook"
 	"github.com/herumi/bls-eth-go-binary/bls"
 	"github.com/rs/zerolog"
+	zlog "github.com/rs/zerolog/log"
 	e2types "github.com/wealdtech/go-eth2-types/v2"
 	keystorev4 "github.com/wealdtech/go-eth2-wallet-encryptor-keystorev4"
 	distributed "github.com/wealdtech/go-eth2-wallet-distributed"
@@ -101,6 +103,7 @@ type world struct {
 	noCache   bool
 	viaGrpc   bool
 	acctMgr   *standardaccountmanager.Service
+	traceLog  bool
 	// stallFirstMs: the FIRST state write after the rules service starts (whoever makes it) stalls that long
 	stallFirstMs int
 	trace     []string
@@ -186,6 +189,10 @@ func (w *world) config(f []string) bool {
 		w.noCache = true
 	case "viagrpc":
 		w.viaGrpc = true
+	case "tracelog":
+		// every service is built with trace-level logging (to a discarding writer): the code that only runs when a log
+		// entry is enabled runs too
+		w.traceLog = true
 	case "stallfirst":
 		w.stallFirstMs, _ = strconv.Atoi(f[1])
 	case "locktrace":
@@ -313,6 +320,12 @@ func (w *world) buildWallets(ctx context.Context) {
 // begin builds wallets and services; returns "ok" or "newfail" (checker construction refused).
 func (w *world) begin() string {
 	ctx := context.Background()
+	if w.traceLog {
+		zlog.Logger = zerolog.New(io.Discard)
+		zerolog.SetGlobalLevel(zerolog.TraceLevel)
+	} else {
+		zerolog.SetGlobalLevel(zerolog.Disabled)
+	}
 	w.buildWallets(ctx)
 
 	if len(w.raws) > 0 {
